@@ -202,5 +202,10 @@ CLAIMS['C10'] = {
   'note': _TB + 'Memory layouts (allocation order, lengths, live/garbage/temporary/literal/array) are case parameters (12 layouts); operation histories are covered only through induction over the per-operation contracts, not explored as sequences; FIELD strings, ERASE compaction and Out of memory part-way through an assignment are not covered.',
 }
 
+CLAIMS['C29'] = {
+  'text': 'Proof on the real CassetteStream record framing (write, read, _flush_record_buffer, _close_record_buffer, _fill_record_buffer, open_write/open_read headers, _write_record/_read_record, _write_block/_read_block) over a byte-tape stand-in, contents symbolic: a data/ASCII file written in any of the stated splits, with the NUL terminator CASTextFile.close appends, is framed as full records plus always one final record carrying its count; reading returns exactly the bytes written, consumes exactly this file\'s records and finds the next file next (lengths 0,1,5,253..256,300,508..511,600 - every boundary of the 255-byte record); binary files (B/P/M) read back byte-identical with name, type, segment, offset and length; blocks are padded to 256 bytes, read back as written, and a changed byte is rejected by the CRC comparison. One defect found by this contract (files of 254, 509, ... bytes ran on into the next file) was repaired in /repo.',
+  'note': _TB + 'The bit level (CASBitStream/WAVBitStream pulse encodings, leader/sync detection) is replaced by a byte-tape stand-in and crc() is taken by contract: WAV/CAS encodings themselves are NOT verified. File lengths and write splits are case parameters.',
+}
+
 NOT_APPLICABLE = {
 }
